@@ -315,7 +315,9 @@ AuditParents(s) ==
 AuditHeights(s) ==
   \A n \in 1..s.n : Alive(s, n) =>
     IF Nec(s, n)
-    THEN /\ s.height[n] >= 1 /\ s.height[n] <= s.ahhMax
+    \* (>= 0, not >= 1: an invalidated node that is still observed sits one above its scope, and the
+    \* scope of a bind that has become unnecessary has height -1)
+    THEN /\ s.height[n] >= 0 /\ s.height[n] <= s.ahhMax
          /\ s.height[n] > ScopeHeight(s, n)
          /\ \A i \in 1..Len(Children(s, n)) : s.height[n] > s.height[Children(s, n)[i]]
     ELSE s.par[n] = <<>> /\ ~InHeap(s, n) /\ (s.valid[n] => s.height[n] = -1)
